@@ -1,4 +1,5 @@
 import SamplyModel.Lemmas.BreakpadReading
+import SamplyModel.Lemmas.BreakpadStored
 /-!
 # C10 — the Breakpad symbol index is independent of chunking and agrees with the .sym text
 
@@ -114,6 +115,83 @@ theorem C10_self_map_no_unwrap_panic (pick : Pick) (text : List UInt8) (hlen : t
       obtain ⟨ix, hp, _⟩ := C10_creator_roundtrip pick [text] bytes (by simpa using hlen) hi
       simp [hp] at h
 
+/-- **A half-written `.symindex` is never accepted.** Every proper prefix of a serialized index (any index
+`serialize_to_bytes` can write without panicking) is rejected by `parse_symindex_file`: the last table ends
+exactly at the end of the file and every table is bounds-checked. -/
+theorem C10_truncated_index_rejected (ix : Index) (hs : serializeSafe ix = true) (n : Nat)
+    (hn : n < (serialize ix).length) : parseSymindex ((serialize ix).take n) = none :=
+  parse_truncated ix hs n hn
+
+/-- … hence a symbol map that is offered a truncated copy of an index the creator produced (from any text,
+in any chunking — it need not even be the index of this text) behaves exactly like the self-indexing map. -/
+theorem C10_truncated_stored_ignored (pick : Pick) (text : List UInt8) (chunks : List (List UInt8))
+    (bytes : List UInt8) (h : index pick chunks = .ok bytes) (n : Nat) (hn : n < bytes.length) :
+    mapStored pick text (some (bytes.take n)) = mapSelf pick text := by
+  obtain ⟨st, _, _, he⟩ := index_spec pick chunks
+  rw [he] at h
+  have hrej : parseSymindex (bytes.take n) = none := by
+    cases hm : st.hasModule with
+    | false => simp [hm] at h
+    | true =>
+      simp only [hm, if_true] at h
+      by_cases hs : serializeSafe (st.toIndex pick) = true
+      · simp only [hs, if_true, Outcome.ok.injEq] at h
+        subst h
+        exact parse_truncated _ hs n hn
+      · simp [hs] at h
+  exact C10_stored_fallback pick text (some (bytes.take n)) (by simpa using hrej)
+
+/-- A lookup through ANY index that `parse_symindex_file` accepts — the index of another file, a corrupted
+one — cannot hit the out-of-range `symbol_entries[index]` (the two symbol arrays of a parsed index have the
+length the header announces); offsets that point outside the text give "not found". -/
+theorem C10_parsed_index_lookup_no_panic (bs : List UInt8) (ix : Index) (h : parseSymindex bs = some ix)
+    (text : List UInt8) (a : Nat) : lookup text ix a ≠ .panic :=
+  lookup_parsed_no_panic bs ix h text a
+
+/-- **The two index builders of wholesym** (`parse_sym_file_into_index`: 2 MiB `read`s of the `.sym` file,
+breakpad.rs:267-290; the download consumer: one `consume` per `read` of the response body,
+breakpad.rs:163-171 + downloader.rs:326-344) compute the index of the whole text, whatever lengths the
+reads return (`lens`: oracle for short reads). -/
+theorem C10_wholesym_index (pick : Pick) (lens : List Nat) (text : List UInt8) :
+    wsIndex pick lens text = index pick [text] :=
+  wsIndex_eq pick lens text
+
+/-- A local `.sym` file under wholesym with a symindex cache directory and no `.symindex` yet: the map is
+the self-indexing map, and the `.symindex` written is the index of the text (no file when the text has no
+MODULE line). -/
+theorem C10_wholesym_local_fresh (pick : Pick) (lens : List Nat) (text : List UInt8) :
+    (wsLocalMap pick lens text none).1 = mapSelf pick text ∧
+    ((tag tMODULE_ text).isSome = true →
+      (wsLocalMap pick lens text none).2 =
+        match index pick [text] with | .ok b => .file b | .err => .absent | .panic => .panic) := by
+  unfold wsLocalMap
+  by_cases hm : (tag tMODULE_ text).isNone = true
+  · refine ⟨?_, ?_⟩
+    · simp only [hm, if_true]; unfold mapSelf; simp [hm]
+    · intro h; cases ht : tag tMODULE_ text <;> simp_all
+  · simp only [hm, Bool.false_eq_true, if_false, wsEnsureSymindex, wsIndex_eq]
+    cases hi : index pick [text] with
+    | panic =>
+      refine ⟨?_, fun _ => rfl⟩
+      simp only
+      rw [mapSelf_eq]; simp [hm, hi]
+    | err => exact ⟨C10_stored_fallback pick text none rfl, fun _ => rfl⟩
+    | ok b =>
+      refine ⟨?_, fun _ => rfl⟩
+      exact mapStored_eq_mapSelf pick text [text] b (by simp) hi
+
+/-- An existing `.symindex` that does not parse (empty, truncated, wrong magic, …) is left alone and
+ignored: the map is the self-indexing one. (`ensure_symindex` reuses whatever file is there; the
+validation happens in `make_index_storage`.) -/
+theorem C10_wholesym_local_stale_rejected (pick : Pick) (lens : List Nat) (text b : List UInt8)
+    (h : parseSymindex b = none) :
+    wsLocalMap pick lens text (some b) = (mapSelf pick text, .file b) := by
+  unfold wsLocalMap
+  by_cases hm : (tag tMODULE_ text).isNone = true
+  · simp only [hm, if_true]; unfold mapSelf; simp [hm]
+  · simp only [hm, Bool.false_eq_true, if_false, wsEnsureSymindex]
+    rw [C10_stored_fallback pick text (some b) (by simpa using h)]
+
 /-- Before fix c4b9d51a an `INLINE_ORIGIN` record inside a FUNC block made the whole block unparseable
 (every lookup in that function returned nothing); the repaired parser skips it. -/
 theorem C10_legacy_counterexample_origin_in_func :
@@ -181,6 +259,31 @@ theorem C10_reading (pick : Pick) (s : SymFile) (h : WF s)
   intro bytes hb
   rw [mapStored_eq_mapSelf pick (render s) chunks bytes hflat hb]
   exact mapSelf_render pick s h.index hm hs
+
+/-- **Agreement with the text, pointwise in the address** (strengthens `C10_reading`: `WF s → WFAt s a`
+for every `a`, see `C10_wf_implies_wfAt`). For the lookup of `a` only what concerns `a` is demanded
+(`BPS.WFAt`): the index part `WFIndex`, and — for the FUNC record whose range contains `a`, if any — line
+records ascending and non-overlapping, `a` covered by one of them or lying before all of them, and every
+inline range covering `a` ending below 2^32 and separated from the other ranges of its depth. Gaps between
+line records elsewhere in the function, anything in other functions, overlapping inline ranges away from
+`a` do not matter. The excluded addresses are exactly those of the known finding C10-line-gap (a line
+record starts at or below `a` but none covers it) and inline ranges that overlap at `a` itself. -/
+theorem C10_reading_at (pick : Pick) (s : SymFile) (a : Nat) (h : WFAt s a)
+    (hm : (tag tMODULE_ s.moduleLine).isSome = true) (hs : serializeSafe (specIndex s) = true)
+    (chunks : List (List UInt8)) (hflat : chunks.flatten = render s) :
+    ∃ ix, mapSelf pick (render s) = .ok ix ∧
+      (∀ bytes, index pick chunks = .ok bytes → mapStored pick (render s) (some bytes) = .ok ix) ∧
+      (wsLocalMap pick [] (render s) none).1 = .ok ix ∧
+      lookup (render s) ix a = readDirectly s a := by
+  refine ⟨specIndex s, mapSelf_render pick s h.index hm hs, ?_, ?_, lookup_render_at s a h⟩
+  · intro bytes hb
+    rw [mapStored_eq_mapSelf pick (render s) chunks bytes hflat hb]
+    exact mapSelf_render pick s h.index hm hs
+  · rw [(C10_wholesym_local_fresh pick [] (render s)).1]
+    exact mapSelf_render pick s h.index hm hs
+
+/-- the file-wide hypothesis of `C10_reading` implies the pointwise one at every address -/
+theorem C10_wf_implies_wfAt (s : SymFile) (h : WF s) (a : Nat) : WFAt s a := wfAt_of_wf s h a
 
 /-- The lookup never hits the out-of-range index of `symbol_entries[index]` on a map the creator built. -/
 theorem C10_reading_no_panic (s : SymFile) (h : WF s) (a : Nat) :
@@ -257,3 +360,62 @@ example : readDirectly C10_exampleFile 4100
       = .found ⟨4096, some 32, [102], some [⟨some [102], some [97, 46, 99], some 7⟩]⟩ ∧
     readDirectly C10_exampleFile 8197 = .found ⟨8192, none, [112], none⟩ ∧
     readDirectly C10_exampleFile 4128 = .none ∧ readDirectly C10_exampleFile 4095 = .none := by decide
+
+/-- a file with a gap between line records: `FUNC 1000 20 0 f`, `1000 8 7 0`, `1010 10 9 0` (nothing covers
+0x1008..0x100f). It is not `WF` (the line records are not contiguous) … -/
+def C10_gapFile : SymFile :=
+  { moduleLine := [77, 79, 68, 85, 76, 69, 32, 76, 105, 110, 117, 120, 32, 120, 56, 54, 95, 54, 52, 32, 66, 69, 52, 69, 57, 55, 54, 67, 51, 50, 53, 50, 52, 54, 69, 69, 57, 68, 54, 66, 55, 56, 52, 55, 65, 54, 55, 48, 66, 50, 65, 57, 48, 32, 120]
+    moduleCrs := 0
+    lines := [⟨.file 0 [97, 46, 99], 1⟩, ⟨.func false 4096 32 0 [102], 0⟩, ⟨.line 4096 8 7 0, 0⟩,
+              ⟨.line 4112 16 9 0, 0⟩, ⟨.pub false 8192 0 [112], 0⟩]
+    finalNl := true }
+
+set_option maxRecDepth 4096 in
+theorem C10_gapFile_wf : WFIndex C10_gapFile := by
+  have hn : ∀ (b : UInt8), isSpTab b = false → NoLeadSp [b] := by
+    intro b hb c r h; cases h; exact hb
+  have hn3 : NoLeadSp ([97, 46, 99] : List UInt8) := by
+    intro c r h; cases h; decide
+  constructor
+  · decide
+  · decide
+  · decide
+  · intro l hl
+    simp only [C10_gapFile, List.mem_cons, List.not_mem_nil, or_false] at hl
+    rcases hl with rfl | rfl | rfl | rfl | rfl
+    · exact ⟨by decide, ⟨by decide, by decide, hn3, by decide⟩⟩
+    · exact ⟨by decide, by decide, by decide, ⟨by decide, by decide, hn _ (by decide), by decide⟩⟩
+    · exact ⟨by decide, by decide, by decide, by decide⟩
+    · exact ⟨by decide, by decide, by decide, by decide⟩
+    · exact ⟨by decide, by decide, ⟨by decide, by decide, hn _ (by decide), by decide⟩⟩
+  · decide
+  · decide
+  · decide
+  · decide
+
+theorem C10_gapFile_not_wf : ¬ WF C10_gapFile := by
+  intro h
+  have := (h.bodies ⟨4096, some 32, [102], [.line 4096 8 7 0, .line 4112 16 9 0]⟩
+    (by simp [C10_gapFile, readSyms, List.takeWhile, Rec.isCloser]) 32 rfl).2
+  simp [linesOf, LinesOK] at this
+
+/-- … but it is well-formed at every address a line record covers, e.g. 0x1004 and 0x1015 (so
+`C10_reading_at` speaks about these lookups, `C10_reading` does not) -/
+theorem C10_gapFile_wfAt (a : Nat) (ha : (4096 ≤ a ∧ a < 4104) ∨ (4112 ≤ a ∧ a < 4128)) : WFAt C10_gapFile a := by
+  refine ⟨C10_gapFile_wf, ?_⟩
+  intro r hr size hsz _ _
+  simp only [C10_gapFile, readSyms, List.mem_cons, List.not_mem_nil, or_false] at hr
+  rcases hr with rfl | rfl
+  · refine ⟨⟨by simp [inlineesOf, List.takeWhile, Rec.isCloser], by simp [inlineesOf, List.takeWhile, Rec.isCloser]⟩, ?_, ?_⟩
+    · simp [linesOf, List.takeWhile, Rec.isCloser, LinesAsc]
+    · left
+      simp only [linesOf, List.takeWhile, Rec.isCloser, List.map, Bool.not_false, Bool.not_true]
+      rcases ha with h | h
+      · exact ⟨⟨4096, 8, 0, 7⟩, by simp, by simp; omega, by simp; omega⟩
+      · exact ⟨⟨4112, 16, 0, 9⟩, by simp, by simp; omega, by simp; omega⟩
+  · simp at hsz
+
+example : readDirectly C10_gapFile 4100
+      = .found ⟨4096, some 32, [102], some [⟨some [102], some [97, 46, 99], some 7⟩]⟩ ∧
+    readDirectly C10_gapFile 4117
+      = .found ⟨4096, some 32, [102], some [⟨some [102], some [97, 46, 99], some 9⟩]⟩ := by decide
